@@ -158,6 +158,57 @@ def analyse(case, out):
     return res
 
 
+def barging_evidence(case, out):
+    """F35's class guard, evaluated on the IMPLEMENTATION's trace: did a barging actually happen?
+    True iff on some semaphore there are a signal S (trace position i0), a wait of thread a that was
+    pending at S (its thread had reached it: previous op completed / thread created before S; not
+    completed at S) with demand <= count right after S (so a resume pass could have allotted it the
+    tokens), and a wait of ANOTHER thread b that returned 0 after S although it was not queued at S
+    (b's previous op completed after S, or it is b's first op), while a's wait had not yet returned 0.
+    Without such an overtaking a blocked-but-covered head waiter is NOT F35 (it is an oracle violation)."""
+    r = e2lib.parse_result(out)
+    if r is None: return False
+    decls, threads = e2lib.parse_case(case)
+    sems = {i: (u64(d[1][0]) if d[1] else 0) for i, d in enumerate(decls) if d[0] == 'sem'}
+    comp, created = {}, {0: -1}
+    evs = []
+    for idx, (t, pc, ret, err, now) in enumerate(r['tr']):
+        if t >= len(threads) or pc >= len(threads[t]): return False
+        comp[(t, pc)] = (idx, ret)
+        name, args = threads[t][pc]
+        if name == 'create' and args: created.setdefault(args[0], idx)
+        evs.append((idx, t, pc, name, args, ret))
+    def start_lb(t, pc):
+        if pc > 0: return comp[(t, pc - 1)][0] if (t, pc - 1) in comp else None
+        return created.get(t)
+    waits = [(t, pc, a[0], u64(a[1])) for t, th in enumerate(threads) for pc, (n, a) in enumerate(th)
+             if n in ('sem_wait', 'sem_waiti') and len(a) > 1 and a[0] in sems and u64(a[1]) != 0]
+    cnt = dict(sems)
+    for (idx, t, pc, name, args, ret) in evs:
+        if name in ('sem_wait', 'sem_waiti') and args and args[0] in cnt and ret == 0:
+            cnt[args[0]] -= u64(args[1])
+        elif name == 'sem_signal' and args and args[0] in cnt:
+            i = args[0]
+            cnt[i] = (cnt[i] + u64(args[1])) % (1 << 64)
+            after = cnt[i]
+            for (ta, pa, ia, ca) in waits:
+                if ia != i or ca > after: continue
+                sa = start_lb(ta, pa)
+                if sa is None or sa >= idx: continue
+                ka = comp.get((ta, pa))
+                if ka is not None and ka[0] < idx: continue            # a had already returned at S
+                a_done = ka[0] if (ka is not None and ka[1] == 0) else None   # position where a finally got its tokens
+                for (tb, pb, ib, cb) in waits:
+                    if ib != i or tb == ta: continue
+                    kb = comp.get((tb, pb))
+                    if kb is None or kb[1] != 0 or kb[0] <= idx: continue
+                    if a_done is not None and a_done < kb[0]: continue
+                    sb = start_lb(tb, pb)
+                    if pb == 0 or (sb is not None and sb > idx):
+                        return True
+    return False
+
+
 def demands_of(case):
     decls, threads = e2lib.parse_case(case)
     ds = {}
@@ -174,7 +225,7 @@ class Check(DiffCheck):
     coq_dirs = ['Base', 'C04', 'Sched', 'C02']
     coq_targets = ['C02/C02_Base.vo', 'C02/C02_Cons.vo', 'C02/C02_Safe.vo', 'C02/C02_Refute.vo', 'C02/C02_Locks.vo', 'C02/C02_LockProto.vo',
                    'C02/C02_Locks2.vo', 'C02/C02_Locks3.vo', 'C02/C02_Summ.vo', 'C02/C02_Credit.vo', 'C02/C02_Struct.vo', 'C02/C02_Other.vo',
-                   'C02/C02_NLW.vo', 'C02/C02_Coop.vo']
+                   'C02/C02_NLW.vo', 'C02/C02_Flow.vo', 'C02/C02_Flow2.vo', 'C02/C02_Flow3.vo', 'C02/C02_Aux.vo', 'C02/C02_NoBarge.vo', 'C02/C02_Coop.vo']
     properties_v = 'C02/C02_Properties.v'
     extract_v = 'C02/C02_Extract.v'
     model_module = 'C02_model'
@@ -182,7 +233,7 @@ class Check(DiffCheck):
             'sem_signal (0-5), interrupt (EINTR, EAGAIN, ETIMEDOUT, ESHUTDOWN), usleep, yield, count()/head probes; 1-2 semaphores, initial count 0-5; '
             'uniform-demand programs in both resume modes, mixed-demand programs in in-order mode; shapes: queue of waiters + signaller, barging arrival; '
             'every program ends with a probe (head demand, count) at quiescence.  non-trivial = a wait blocks and is later resumed, times out or is interrupted')
-    assumptions = ['sequential consistency', 'positive theorem sem_no_lost_wakeup_inorder_uniform (in-order resume mode): all waits on the semaphore use one demand value (class of known finding "barging" beyond it)',
+    assumptions = ['sequential consistency', 'positive theorems (in-order resume mode): sem_no_lost_wakeup_inorder_uniform - all waits on the semaphore use one demand value; sem_no_lost_wakeup_inorder_nobarge - any demands, guard = ghost g_refail false (no woken waiter was overtaken: complement of known finding "barging" F35) and no thread_interrupt with error number -1',
                    'out-of-order mode with mixed demands is the class of known finding F9 (self-deadlock)']
     trusted_base = ['E2 hooks H-clock/H-idle', 'harness reads thread::semaphore_count of q.th at offset 0x48 (static_assert in thread.cpp) for the head probe']
     partial_note = ('cross-vCPU interleavings are covered by the theorems over the fine-grained model only; the tie to the code is single-vCPU (E2) '
@@ -233,7 +284,9 @@ class Check(DiffCheck):
     def known_class(self, case):
         # needs the implementation's trace: `canon` (called on the implementation's line just before) stashed it.
         # A case is in a known class only if EVERY failure the oracle sees has that finding's shape AND the
-        # case satisfies the finding's class guard (mixed demands on the semaphore; F9: out-of-order mode).
+        # case satisfies the finding's class guard (F35: mixed demands on the semaphore AND the implementation's
+        # trace shows an actual overtaking - a late wait returned 0 while a waiter that a signal could have
+        # woken had not yet got its tokens, see barging_evidence; F9: out-of-order mode with mixed demands).
         if self._last is None: return None
         a = analyse(case, self._last)
         kinds = set(k for k, _ in a)
@@ -242,7 +295,7 @@ class Check(DiffCheck):
         mixed = any(len(v) > 1 for v in ds.values())
         ooo_mixed = any(len(v) > 1 and decls[i][0] == 'sem' and len(decls[i][1]) > 1 and decls[i][1][1] == 0 for i, v in ds.items() if i < len(decls))
         if kinds == {'hang'}: return 'F9' if ooo_mixed else None
-        if kinds == {'barge'}: return 'F35' if mixed else None
+        if kinds == {'barge'}: return 'F35' if (mixed and barging_evidence(case, self._last)) else None
         return None
 
     def neighbours(self, case, rng):
